@@ -43,16 +43,17 @@ theorem post_array_set (L : Lawful eq hashf) {d : Nat} {nc : Int} {cs : List (Op
     Post eq hashf d (.array nc cs) k v
       (.array (nc + (if x.isNone then 1 else 0)) (cs.set (chunkN d (hashf k)) (some m))) added := by
   cases hwf with
-  | array hd hlen hnc hsub hkeys =>
+  | array hd hlen hnc hmin hsub hkeys =>
   have hd7 : d ≤ 7 := by omega
   have hc := chunkN_lt d (hashf k)
   have hcl : chunkN d (hashf k) < cs.length := by omega
   have hxi : cs[chunkN d (hashf k)] = x := by
     rw [List.getElem?_eq_getElem hcl] at hx; exact Option.some.inj hx
   constructor
-  · refine WF.array hd (by simpa using hlen) ?_ ?_ ?_
+  · refine WF.array hd (by simpa using hlen) ?_ ?_ ?_ ?_
     · rw [countP_set_isSome cs _ x m hx, hnc]
       cases x <;> simp
+    · cases x <;> simp <;> omega
     · intro c n hs
       rw [List.getElem?_set] at hs
       split at hs
@@ -104,7 +105,7 @@ theorem assoc_array (L : Lawful eq hashf) (fuel d : Nat) (ih : IH (V := V) eq ha
       Post eq hashf d (.array nc cs) k v n' added := by
   have hwf' := hwf
   cases hwf with
-  | array hd hlen hnc hsub hkeys =>
+  | array hd hlen hnc hmin hsub hkeys =>
   have hd7 : d ≤ 7 := by omega
   have hc := chunkN_lt d (hashf k)
   have hcl : chunkN d (hashf k) < cs.length := by omega
